@@ -8,6 +8,7 @@ CONSTANTS
   RefE <- MCRefE
   RefAttrSeq <- MCRefAttr
   Inits <- MCInits
+  WithSub = TRUE
   Depth = 10
   Emit = TRUE
 INVARIANTS TypeOK AnswersFresh CacheCoherent CopyLaws Leaf
